@@ -332,12 +332,19 @@ def shape_of(name):
 def agreement(unit, work, tier, seed, repo, goenv):
     bindir = c01.build(repo, work, goenv)
     get = lambda c: c.replace("supportsConnectGet: false", "supportsConnectGet: true")
-    passes = [("quick", QUICK_CONF), ("dir", get(MID_CONF))] if tier == "quick" else [("thorough", MID_CONF), ("mini", THOROUGH_CONF), ("dir-full", get(THOROUGH_CONF))]
+    passes = [("quick", QUICK_CONF), ("dir", get(MID_CONF))] if tier == "quick" else [("dir-full", get(THOROUGH_CONF)), ("mini", THOROUGH_CONF), ("thorough", MID_CONF)]
     only = os.environ.get("VERIF_C02_ONLY")
     rep = {"evaluations": 0, "distinct_nontrivial": 0, "samples": [], "violations": [], "exhaustive": True, "outcomes": {}, "counters": {},
            "rule": "test-case shapes enumerated completely from a bounded grammar (stream type x request count x response data/error shape x error code/message/details x request-header/response-header/trailer shape), simplest first; one evaluation = one (shape x config case x peer pairing) permutation executed by the real binaries; non-trivial = distinct permutation name",
            "extra": {"runs": {}}, "notes": []}
+    t_start = time.time()
+    budget = float(os.environ.get("VERIF_BUDGET_OVERRIDE") or (0 if tier == "quick" else 3000))
     for level, conftext in passes:
+        if budget and time.time() - t_start > budget:
+            rep["exhaustive"] = False
+            rep["notes"].append("budget of %d s reached before pass %r: not run" % (budget, level))
+            rep["capped"] = "budget reached before pass %s" % level
+            continue
         files, ncases, suites = write_suites(work, level, tag=level)
         rep["counters"]["generated_test_cases:" + level] = ncases
         conf = os.path.join(work, "c02-config-%s.yaml" % level)
@@ -369,8 +376,19 @@ def run_one(rep, bindir, repo, conf, level, mode, impl, extra):
     rep["distinct_nontrivial"] += res["total"]
     rep["outcomes"][tag + ":passed"] = res["passed"]
     rep["outcomes"][tag + ":failed"] = res["failed"]
-    # confirm failures in isolation, 2 rounds
-    remaining = list(dict.fromkeys(res["failed_names"]))
+    # confirm failures in isolation, 2 rounds - except those of a family already listed as a known finding
+    # (they are reported under that key either way; re-running hundreds of them one by one only costs time)
+    known_keys = set()
+    try:
+        for line in open(os.path.join(os.path.dirname(_here), "known_findings.txt")):
+            m = re.match(r"finding: property=C02 key=(\S+)", line)
+            if m:
+                known_keys.add(m.group(1))
+    except OSError:
+        pass
+    all_failed = list(dict.fromkeys(res["failed_names"]))
+    listed = [fn for fn in all_failed if "disagreement:%s:%s" % (mode, shape_class(shape_of(fn))) in known_keys]
+    remaining = [fn for fn in all_failed if fn not in set(listed)]
     for rnd in range(2):
         if not remaining:
             break
@@ -387,6 +405,7 @@ def run_one(rep, bindir, repo, conf, level, mode, impl, extra):
             else:
                 still += [fn for fn in chunk if fn in r2["failed_names"]]
         remaining = still
+    remaining = remaining + listed
     by_shape = {}
     for fn in remaining:
         by_shape.setdefault(shape_class(shape_of(fn)), []).append(fn)
